@@ -3,7 +3,7 @@
 from jaqalpaq.core.algorithm.visitor import Visitor
 from jaqalpaq.core.circuit import Circuit
 from jaqalpaq.core.block import BlockStatement, LoopStatement
-from jaqalpaq.core.gatedef import GateDefinition
+from jaqalpaq.core.gatedef import GateDefinition, GateStatement
 from jaqalpaq.core.macro import Macro
 
 
@@ -56,6 +56,7 @@ class SubcircuitExpander(Visitor):
     def __init__(self, prepare_def, measure_def):
         self.prepare_def = prepare_def
         self.measure_def = measure_def
+        self.macros = {}
 
     def visit_default(self, obj):
         """By default we leave all objects alone. Note that the object is not copied."""
@@ -63,6 +64,7 @@ class SubcircuitExpander(Visitor):
 
     def visit_Circuit(self, circuit):
         new_circuit = Circuit(native_gates=circuit.native_gates)
+        self.macros = new_circuit.macros
         for name, macro in circuit.macros.items():
             new_circuit.macros[name] = Macro(
                 macro.name, macro.parameters, self.visit(macro.body)
@@ -72,6 +74,13 @@ class SubcircuitExpander(Visitor):
         new_circuit.usepulses.extend(circuit.usepulses)
         new_circuit.body.statements.extend(self.visit(circuit.body).statements)
         return new_circuit
+
+    def visit_GateStatement(self, gate):
+        """A call to a macro must refer to the rebuilt macro, not to the
+        definition in the input circuit."""
+        if isinstance(gate.gate_def, Macro) and gate.name in self.macros:
+            return GateStatement(self.macros[gate.name], gate.parameters)
+        return gate
 
     def visit_LoopStatement(self, loop):
         return LoopStatement(loop.iterations, self.visit(loop.statements))
